@@ -18,7 +18,8 @@ ASSUMPTIONS = [
 TRUSTED = [
     "numpy / list container semantics (both containers are driven; the model has one list of cells)",
     "independent oracle tools/harness/ringbuffer.py:SlidingMap (dict-based; slot rounding by round(Fraction))",
-    "datetime / zoneinfo arithmetic of CPython (sample and query datetimes are also stamped in fixed-offset and DST zones, "
+    "results of window() are scribbled on in place after every query (lists: overwrite/append/extend, arrays: in-place ops): later answers must not change",
+    "datetime / zoneinfo arithmetic of CPython (align_to, sample and query datetimes are also stamped in fixed-offset and DST zones, "
     "windows sliding through fall-back / spring-forward transitions; the model sees instants in microseconds)",
 ]
 
@@ -46,7 +47,7 @@ META = {
                   "T-tie: OrderedRingBuffer.wrap, OrderedRingBuffer.normalize_timestamp and Gap.contains are regenerated from /repo on every "
                   "run (gen/RingBuffer.v) and are the functions the model computes with (`period / 2` enters normalize_timestamp as a "
                   "parameter, modelled by td_half = timedelta true division rounded half-even); everything else is tied by correspondence.",
-    "level_note": "Model follows the code AFTER three fix: commits in /repo (5c62ba0 window() normalises datetimes — F11/F12; b0ce417 "
+    "level_note": "Model follows the code AFTER four fix: commits in /repo (599676e alignment point kept in UTC — align_to in a DST zone shifted slots by the offset difference; 5c62ba0 window() normalises datetimes — F11/F12; b0ce417 "
                   "MovingWindow.at gap slots / index range — F13; c194ad4 count_covered exact division — new finding).  Not proved, only "
                   "exercised by correspondence: float rounding inside to_internal_index and the sort key, numpy vs list storage, pickle "
                   "round trip, datetime.min sentinel arithmetic.  fill_value=None (raw data, documented opt-out) is modelled and compared "
